@@ -303,9 +303,54 @@ def c13(sc, tr):
     res['extra']['tie_vectors'] = set(v for v in vectors if v[0] <= 6)
     res['probes']['lists-observed'] = len(calls)
     files = sorted(tr.files, key=lambda x: int(x.split('.')[0]))
+    # file level (independent of the writer spy): every list in the file is
+    # well-formed tie text, and the solver reads exactly the ranks the text
+    # denotes
+    for m, name in enumerate(files):
+        text = tr.files[name]
+        try:
+            I = rm.parse(text, na, True)
+        except rm.ParseError as e:
+            res['violations'].append(
+                ('malformed-tie-text', str(e).split(' ')[0],
+                 {'file': name, 'error': str(e), 'text': text[:400]}))
+            continue
+        except Exception:
+            res['skipped'] = 'c08-class:unparsable'
+            continue
+        sub = tr.solver_sessions[m] if m < len(tr.solver_sessions) else None
+        if sub is None or not sub.calls or not sub.calls[0]['ok']:
+            continue
+        view = sub.model_view
+        if not isinstance(view, dict) or 'pairs' not in view:
+            continue
+        for i in range(I.n1):
+            want = [(pid, r) for pid, r in I.prefs[i]]
+            got = [(pid, rs) for _, pid, rs, _, _ in view['pairs'][i]] \
+                if i < len(view['pairs']) else None
+            if got != want:
+                res['violations'].append(
+                    ('tie-text-vs-reader', 'first-side',
+                     {'file': name, 'agent': i + 1, 'text_ranks': want,
+                      'read': got}))
+            if len(want) >= 2:
+                res['nontrivial'] = True
+        if twopl:
+            for row in view['pairs']:
+                for sid, pid, rs, lec, rl in row:
+                    if I.lrank.get((lec, sid)) != rl:
+                        res['violations'].append(
+                            ('tie-text-vs-reader', 'second-side',
+                             {'file': name, 'agent': lec, 'student': sid,
+                              'text_rank': I.lrank.get((lec, sid)),
+                              'read': rl}))
+            res['probes']['second-side-file-vs-reader'] = 1
+    if not calls:
+        res['probes']['writer-spy-blind'] = 1
     if len(calls) != per * len(files):
         res['skipped'] = 'spy-call-count-mismatch'
         return res
+    res['probes']['writer-decisions-observed'] = 1
     for m, name in enumerate(files):
         chunk = calls[m * per:(m + 1) * per]
         text = tr.files[name]
